@@ -99,6 +99,20 @@ func streak(c *vk.C, what string, gaps []float64, afterReset float64, detail any
 		return false
 	}
 
+	// within one uninterrupted failure streak (all the gaps passed in) the delay never collapses: nothing succeeded, so
+	// nothing may reset it (a factor of 8 leaves room for any jitter around a growing or capped delay)
+	for i := 0; i+1 < len(gaps); i++ {
+		if gaps[i+1] < gaps[i]/8 {
+			c.Violation("backoff-reset-without-success", map[string]any{"what": what, "gaps": gaps, "index": i + 1, "detail": detail})
+
+			return false
+		}
+	}
+
+	if len(gaps) >= 12 {
+		c.Count("long_streaks_checked", 1)
+	}
+
 	if afterReset >= 0 && afterReset >= gaps[7]/2 {
 		c.Violation("backoff-not-reset-on-success", map[string]any{"what": what, "gaps": gaps, "after_reset": afterReset, "detail": detail})
 
@@ -128,11 +142,11 @@ func checkHealthy(c *vk.C, w *rtp.World, faulty map[string]bool, stage string, c
 // ---- plan 1: a Controller whose Run fails / panics on 8 consecutive wakes, next to healthy controllers ----------------
 func controllerFaults(c *vk.C, rng *rand.Rand, k int) {
 	kA, kB := rtp.Kinds[0], rtp.Kinds[1]
-	faults := alternating(1, 8, rng)
-	faults[12] = "err"
+	faults := alternating(1, 16, rng)
+	faults[20] = "err"
 
 	cfg := rtp.Cfg{MaxDelay: rng.IntN(3), Cached: pickCached(rng), Ctrls: []rtp.CtrlCfg{
-		{Name: "F", Inputs: []controller.Input{in(kA, controller.InputWeak)}, LateAt: -1, Faults: faults, ResetAt: 10},
+		{Name: "F", Inputs: []controller.Input{in(kA, controller.InputWeak)}, LateAt: -1, Faults: faults, ResetAt: 18},
 		{Name: "H", Inputs: []controller.Input{in(kA, controller.InputWeak), in(kB, controller.InputStrong)}, LateAt: -1, BusyBefore: []int{rng.IntN(5)}},
 	}, QCtrls: []rtp.QCfg{{Name: "HQ", Inputs: []controller.Input{in(kA, controller.InputQPrimary), in(kB, controller.InputQMapped)}, Concurrency: uint(1 + rng.IntN(2)), Busy: []int{rng.IntN(4)}}}}
 
@@ -160,10 +174,10 @@ func controllerFaults(c *vk.C, rng *rand.Rand, k int) {
 		rtp.Quiesce(time.Duration(rng.IntN(3000)) * time.Millisecond)
 	}
 
-	rtp.Quiesce(3 * time.Minute) // the streak (8 restarts) completes: a fresh reconcile follows every restart
+	rtp.Quiesce(20 * time.Minute) // the streak (16 restarts) completes: a fresh reconcile follows every restart
 
-	// then individual writes until wake 13 has happened (reset at wake 10, failure at 12)
-	for i := 0; i < 60 && wakeCount(w, "F") < 14; i++ {
+	// then individual writes until wake 21 has happened (reset at wake 18, failure at 20)
+	for i := 0; i < 80 && wakeCount(w, "F") < 22; i++ {
 		_ = w.Write(ctx, rtp.WUpdate, gp.Key{NS: kA.NS, Type: kA.Type, ID: "x"}, "")
 		_ = w.Write(ctx, rtp.WCreate, gp.Key{NS: kA.NS, Type: kA.Type, ID: "x"}, "")
 		rtp.Quiesce(2 * time.Minute)
@@ -195,15 +209,15 @@ func controllerFaults(c *vk.C, rng *rand.Rand, k int) {
 
 		gap := starts[j] - wk.EndMS
 
-		if wk.N <= 8 {
+		if wk.N <= 16 {
 			gaps = append(gaps, gap)
-		} else if wk.N == 12 {
+		} else if wk.N == 20 {
 			afterReset = gap
 		}
 	}
 
 	if afterReset < 0 {
-		c.Inconclusive("controller plan: the post-reset failure (wake 12) was not reached")
+		c.Inconclusive("controller plan: the post-reset failure (wake 20) was not reached")
 	}
 
 	if streak(c, "controller-restart", gaps, afterReset, map[string]any{"scenario": k, "starts": starts, "faults": faults}) {
@@ -257,7 +271,7 @@ func queueFaults(c *vk.C, rng *rand.Rand, k int) {
 	kA, kB := rtp.Kinds[0], rtp.Kinds[1]
 	outcomes := []string{}
 
-	for i := 0; i < 8; i++ {
+	for i := 0; i < 14; i++ {
 		outcomes = append(outcomes, []string{"err", "panic"}[rng.IntN(2)])
 	}
 
@@ -265,7 +279,7 @@ func queueFaults(c *vk.C, rng *rand.Rand, k int) {
 	outcomes = append(outcomes, "ok", "err", "ok", fmt.Sprintf("requeue:%d", reqMS), "ok", fmt.Sprintf("requeueerr:%d", reqMS), "skip", "err", "ok")
 
 	hook := []string{}
-	for i := 0; i < 8; i++ {
+	for i := 0; i < 16; i++ {
 		hook = append(hook, []string{"err", "panic"}[rng.IntN(2)])
 	}
 
@@ -325,7 +339,7 @@ func queueFaults(c *vk.C, rng *rand.Rand, k int) {
 		rtp.Quiesce(time.Duration(rng.IntN(4000)) * time.Millisecond)
 	}
 
-	rtp.Quiesce(5 * time.Minute) // streak done: outcome index 8 ("ok") reached
+	rtp.Quiesce(25 * time.Minute) // streaks done: outcome index 14 ("ok") reached, the run hook is past its 16 failures
 
 	// each further outcome needs a fresh notification for x (except the retries after err / requeue)
 	for i := 0; i < 12; i++ {
@@ -352,9 +366,9 @@ func queueFaults(c *vk.C, rng *rand.Rand, k int) {
 		gap := recs[i+1].AtMS - recs[i].EndMS
 
 		switch {
-		case recs[i].N < 8:
+		case recs[i].N < 14:
 			gaps = append(gaps, gap)
-		case recs[i].N == 9:
+		case recs[i].N == 15:
 			afterReset = gap
 		case strings.HasPrefix(recs[i].Fault, "requeue"):
 			// honoured unless a fresh notification arrived: the harness writes x only after 2 virtual minutes of quiet, so none did
@@ -646,7 +660,7 @@ func tasks(c *vk.C, rng *rand.Rand, k int) {
 	base, _ := rtp.Census()
 
 	var outcomes []string
-	for i := 0; i < 8; i++ {
+	for i := 0; i < 16; i++ {
 		outcomes = append(outcomes, []string{"err", "panic"}[rng.IntN(2)])
 	}
 
@@ -663,7 +677,7 @@ func tasks(c *vk.C, rng *rand.Rand, k int) {
 
 	tk := task.New[int, spec](zap.NewNop(), sp, 0)
 	tk.Start(ctx)
-	rtp.Quiesce(10 * time.Minute)
+	rtp.Quiesce(30 * time.Minute)
 
 	mu.Lock()
 	var gaps []float64
